@@ -265,8 +265,8 @@ func RunCheck(ctx *Ctx, prepare func(*Ctx) (*Prepared, error), level string) int
 				vios = append(vios, &vioRec{job: j, pkg: pk, harness: h, v: v, sig: s})
 			}
 			// translation validation: path witnesses are replayed natively (quick
-			// tier: for every third package, thorough: all)
-			if ctx.Tier == "thorough" || len(prep.Targets) < 20 || pkgSample(pk) {
+			// tier: a sample of the packages, thorough: all)
+			if ctx.Tier == "thorough" || len(prep.Targets) < 20 || pkgSample(pk, len(prep.Targets)) {
 				for _, w := range fr.Witnesses {
 					witnesses[pk] = append(witnesses[pk], ReplayCase{Func: h, Script: w, Runs: 1})
 				}
@@ -744,7 +744,10 @@ func Replay(dir string, ctx *Ctx, prepare func(*Ctx) (*Prepared, error)) int {
 	return 0
 }
 
-func pkgSample(pk string) bool {
+// pkgSample selects the packages whose path witnesses are replayed natively
+// in the quick tier: every third package, thinned out further so that about
+// 64 replay binaries are built however large the corpus is.
+func pkgSample(pk string, total int) bool {
 	h := 0
 	for _, c := range pk {
 		h = h*31 + int(c)
@@ -752,7 +755,11 @@ func pkgSample(pk string) bool {
 	if h < 0 {
 		h = -h
 	}
-	return h%3 == 0
+	every := 3
+	if total/64 > every {
+		every = total / 64
+	}
+	return h%every == 0
 }
 
 // solverNames reports the solver back ends the workers use.
